@@ -14,6 +14,13 @@
 (* to the working directory, which is that same root.  The file system is a *)
 (* function from canonical paths (no ROOT, no "." / "..", no links) to       *)
 (* entries.                                                                 *)
+(*                                                                          *)
+(* A file becomes an "importing file" by three routes: it is the program    *)
+(* named on the command line, it is imported, or it is a CODE FILE handed   *)
+(* to the tool as the value of an external variable (--ext-code-file v=P,   *)
+(* read with std.extVar("v")) or of a top-level argument (--tla-code-file   *)
+(* x=P, the parameter x of a function program).  All three routes lead to   *)
+(* the same cache: a file is one value however it is reached.               *)
 EXTENDS Naturals, Sequences, FiniteSets, TLC, SequencesExt, FiniteSetsExt
 
 ROOT == "/"
@@ -32,7 +39,17 @@ DirOf(p) == SubSeq(p, 1, Len(p) - 1)
 (*  lazy   <<>> or one import statement in a hidden field (forced on demand) *)
 (*  strict the body forces every eager import to a value BEFORE it yields    *)
 (*  target link target (a path, relative to the directory of the link)       *)
+(* A statement is `import sp` / `importstr sp` / `importbin sp` (kind         *)
+(* "import" / "str" / "bin") or the demand of a value bound on the command  *)
+(* line: kind "ext" = std.extVar(sp[1]), kind "tla" = the parameter sp[1]   *)
+(* of the function program (in scope in the main file only).  `chain` is    *)
+(* the number of `.lazy` selections applied to the value.                   *)
 Stmt(kind, sp, chain) == [kind |-> kind, sp |-> sp, chain |-> chain]
+ImportKinds == {"import", "str", "bin"}
+VarKinds == {"ext", "tla"}
+(* One code-file option of the command line: route "ext" | "tla", the name  *)
+(* it binds, the path as spelled on the command line.                       *)
+Opt(route, var, path) == [route |-> route, var |-> var, path |-> path]
 DirE == [t |-> "dir", tag |-> 0, code |-> FALSE, bytes |-> <<>>, eager |-> <<>>,
          lazy |-> <<>>, strict |-> FALSE, target |-> <<>>]
 Code(tag, eager, lazy, strict) ==
@@ -102,6 +119,17 @@ FirstHit(f, cs, i) ==
        ELSE FirstHit(f, cs, i + 1)
 
 Resolve(f, dir, jp, sp) == FirstHit(f, Candidates(dir, jp, sp), 1)
+
+(* A path given on the command line is not searched for: a relative one is  *)
+(* relative to the working directory (the root of the tree), an absolute    *)
+(* one is taken as it is; there is no importing file and -J plays no part.  *)
+CmdResolve(f, p) == FirstHit(f, <<p>>, 1)
+
+(* The options are bound in this order: every --ext-code-file in command-   *)
+(* line order, then every --tla-code-file in command-line order.            *)
+BindSeq(os) ==
+  LET idx == [i \in 1..Len(os) |-> i] IN
+  SelectSeq(idx, LAMBDA i : os[i].route = "ext") \o SelectSeq(idx, LAMBDA i : os[i].route = "tla")
 
 -----------------------------------------------------------------------------
 (* UTF-8 (Unicode Standard, ch. 3).                                          *)
@@ -184,24 +212,34 @@ ImportBinOf(f, n) == IF f[n].code THEN Item("textbytes", n, <<>>) ELSE Item("bin
 
 -----------------------------------------------------------------------------
 (* The machine.  One run of the command-line tool on one scenario.          *)
-VARIABLES fam, fs, jpaths, mainPath,      \* the scenario; never change
-          cache,      \* canonical file -> "eval" (value being computed) | "done"
-          loads,      \* canonical library file -> number of times loaded and evaluated
+(*                                                                          *)
+(*   bind   the main file has been loaded (not evaluated); the code-file    *)
+(*          options are bound one by one: each names a file by a command-   *)
+(*          line path, the file is LOADED (it enters the cache under its    *)
+(*          identity, std.thisFile fixed) but not evaluated                 *)
+(*   run    the main file is evaluated and its value manifested; files are  *)
+(*          evaluated when their value is first demanded, whether by an     *)
+(*          import, by std.extVar or by the top-level parameter             *)
+VARIABLES fam, fs, jpaths, mainPath, opts,  \* the scenario; never change
+          cache,      \* canonical file -> "loaded" (not yet demanded) | "eval" (value being
+                      \*                   computed) | "done"
+          loads,      \* canonical library file -> number of times evaluated
           thisFile,   \* canonical file -> the path it was loaded by
-          res,        \* canonical file -> results of its eager imports (last manifestation)
+          binds,      \* index of a code-file option -> the canonical file it is bound to
+          res,        \* canonical file -> results of its eager statements (last manifestation)
           stack,      \* evaluation stack
-          status,     \* "run" | "ok" | "error" | "outside"
+          status,     \* "bind" | "run" | "ok" | "error" | "outside"
           err,        \* where and why the run failed
           hist,       \* every resolution request made so far
-          hits        \* number of imports answered from the cache
-vars == <<fam, fs, jpaths, mainPath, cache, loads, thisFile, res, stack, status, err, hist, hits>>
-scen == <<fam, fs, jpaths, mainPath>>
+          hits        \* number of requests answered from the cache
+vars == <<fam, fs, jpaths, mainPath, opts, cache, loads, thisFile, binds, res, stack, status, err, hist, hits>>
+scen == <<fam, fs, jpaths, mainPath, opts>>
 
 NoErr == [class |-> "", file |-> <<>>, slot |-> 0, sp |-> <<>>]
 
 (* Frames: TOP (the command line), L (a file body being evaluated: value    *)
-(* not yet available), M (a file value being manifested: its eager imports  *)
-(* are demanded in order), W (one import expression being evaluated,        *)
+(* not yet available), M (a file value being manifested: its eager          *)
+(* statements are demanded in order), W (one statement being evaluated,     *)
 (* including the `.lazy` selections that follow it).                        *)
 Frame(k, file, pc, dir, sp, kind, left, cur, have) ==
   [k |-> k, file |-> file, pc |-> pc, dir |-> dir, sp |-> sp, kind |-> kind,
@@ -209,21 +247,76 @@ Frame(k, file, pc, dir, sp, kind, left, cur, have) ==
 TopFrame == Frame("TOP", <<>>, 0, <<>>, <<>>, "", 0, <<>>, FALSE)
 LFrame(n) == Frame("L", n, 1, <<>>, <<>>, "", 0, <<>>, FALSE)
 MFrame(n) == Frame("M", n, 1, <<>>, <<>>, "", 0, <<>>, FALSE)
-(* owner = the file whose text contains the import; slot = index among its  *)
-(* eager imports, 0 = its lazy import.  Relative spellings are tried first  *)
-(* against the directory of the path the owner was loaded by.               *)
+(* owner = the file whose text contains the statement; slot = index among   *)
+(* its eager statements, 0 = its lazy statement.  Relative spellings are    *)
+(* tried first against the directory of the path the owner was loaded by -  *)
+(* whichever way it was loaded.                                             *)
 WFrame(owner, slot, st) ==
   Frame("W", owner, slot, DirOf(thisFile[owner]), st.sp, st.kind, st.chain, <<>>, FALSE)
 
+MainNode == Canon(fs, mainPath)
+HasTla == \E i \in 1..Len(opts) : opts[i].route = "tla"
+(* with top-level arguments the main file's own value is a function: what   *)
+(* becomes of that function when the file is reached again is not decided   *)
+MainIsFn(n) == HasTla /\ n = MainNode
+
 InitScenario(s) ==
   LET mainNode == Canon(s.fs, s.main) IN
-  /\ fam = s.fam /\ fs = s.fs /\ jpaths = s.jp /\ mainPath = s.main
-  /\ cache = (mainNode :> "eval")
+  /\ fam = s.fam /\ fs = s.fs /\ jpaths = s.jp /\ mainPath = s.main /\ opts = s.opts
+  /\ cache = (mainNode :> "loaded")
   /\ thisFile = (mainNode :> s.main)
-  /\ loads = (mainNode :> 1) @@ ConstFn(CodeNodes(s.fs), 0)
+  /\ loads = ConstFn(CodeNodes(s.fs), 0)
+  /\ binds = <<>>
   /\ res = ConstFn(CodeNodes(s.fs), <<>>)
-  /\ stack = <<TopFrame, LFrame(mainNode)>>
-  /\ status = "run" /\ err = NoErr /\ hist = {} /\ hits = 0
+  /\ stack = <<TopFrame>>
+  /\ status = "bind" /\ err = NoErr /\ hist = {} /\ hits = 0
+
+(* --- binding the code-file options ---------------------------------------- *)
+Binding == status = "bind"
+NBound == Cardinality(DOMAIN binds)
+
+NoteCmd(p, r) == hist' = hist \cup {[via |-> "cmd", dir |-> <<>>, sp |-> p, ok |-> r.ok, why |-> r.why,
+                                      path |-> r.path, node |-> r.node, idx |-> r.idx]}
+CmdSite(class, i) == [class |-> class, file |-> <<>>, slot |-> i, sp |-> opts[i].path]
+
+BindFail(i, r) ==     \* missing / not a readable file: the run ends before anything is evaluated
+  /\ ~r.ok
+  /\ status' = IF r.why = "above" THEN "outside" ELSE "error"
+  /\ err' = CmdSite(r.why, i)
+  /\ UNCHANGED <<scen, cache, loads, thisFile, binds, res, stack, hits>>
+
+BindNotCode(i, r) ==  \* a data file given as a program: not decided here
+  /\ r.ok /\ ~fs[r.node].code
+  /\ status' = "outside" /\ err' = CmdSite("notcode", i)
+  /\ UNCHANGED <<scen, cache, loads, thisFile, binds, res, stack, hits>>
+
+BindLoad(i, r) ==     \* the file is loaded by the command-line path; nothing is evaluated yet
+  /\ r.ok /\ fs[r.node].code /\ r.node \notin DOMAIN cache
+  /\ cache' = cache @@ (r.node :> "loaded")
+  /\ thisFile' = thisFile @@ (r.node :> r.path)
+  /\ binds' = binds @@ (i :> r.node)
+  /\ UNCHANGED <<scen, loads, res, stack, status, err, hits>>
+
+BindHit(i, r) ==      \* the same file (the main file, or an earlier option's) under another name
+  /\ r.ok /\ fs[r.node].code /\ r.node \in DOMAIN cache
+  /\ binds' = binds @@ (i :> r.node)
+  /\ hits' = hits + 1
+  /\ UNCHANGED <<scen, cache, loads, thisFile, res, stack, status, err>>
+
+BindCodeFile ==       \* one --ext-code-file / --tla-code-file option
+  /\ Binding /\ NBound < Len(opts)
+  /\ LET i == BindSeq(opts)[NBound + 1]
+         r == CmdResolve(fs, opts[i].path) IN
+       /\ NoteCmd(opts[i].path, r)
+       /\ \/ BindFail(i, r) \/ BindNotCode(i, r) \/ BindLoad(i, r) \/ BindHit(i, r)
+
+StartMain ==          \* every option is bound: the main file's value is demanded
+  /\ Binding /\ NBound = Len(opts)
+  /\ status' = "run"
+  /\ cache' = [cache EXCEPT ![MainNode] = "eval"]
+  /\ loads' = [loads EXCEPT ![MainNode] = @ + 1]
+  /\ stack' = <<TopFrame, LFrame(MainNode)>>
+  /\ UNCHANGED <<scen, thisFile, binds, res, err, hist, hits>>
 
 Running == status = "run" /\ Len(stack) > 1
 Top == stack[Len(stack)]
@@ -233,10 +326,10 @@ ReplaceTop(s, fr) == [s EXCEPT ![Len(s)] = fr]
 Eager(n) == fs[n].eager
 
 (* --- file bodies ---------------------------------------------------------- *)
-ForceStmt ==          \* a strict body forces its next eager import to a value
+ForceStmt ==          \* a strict body forces its next eager statement to a value
   /\ Running /\ Top.k = "L" /\ fs[Top.file].strict /\ Top.pc <= Len(Eager(Top.file))
   /\ stack' = Append(stack, WFrame(Top.file, Top.pc, Eager(Top.file)[Top.pc]))
-  /\ UNCHANGED <<scen, cache, loads, thisFile, res, status, err, hist, hits>>
+  /\ UNCHANGED <<scen, cache, loads, thisFile, binds, res, status, err, hist, hits>>
 
 FinishLoad ==         \* the body yields its value: the file is in the cache for good
   /\ Running /\ Top.k = "L"
@@ -244,31 +337,56 @@ FinishLoad ==         \* the body yields its value: the file is in the cache for
   /\ cache' = [cache EXCEPT ![Top.file] = "done"]
   /\ stack' = IF Below.k = "TOP" THEN <<TopFrame, MFrame(Top.file)>>
               ELSE ReplaceTop(Popped, [Below EXCEPT !.cur = Top.file, !.have = TRUE])
-  /\ UNCHANGED <<scen, loads, thisFile, res, status, err, hist, hits>>
+  /\ UNCHANGED <<scen, loads, thisFile, binds, res, status, err, hist, hits>>
 
 (* --- manifestation ------------------------------------------------------- *)
 DemandStmt ==
   /\ Running /\ Top.k = "M" /\ Top.pc <= Len(Eager(Top.file))
   /\ stack' = Append(stack, WFrame(Top.file, Top.pc, Eager(Top.file)[Top.pc]))
-  /\ UNCHANGED <<scen, cache, loads, thisFile, res, status, err, hist, hits>>
+  /\ UNCHANGED <<scen, cache, loads, thisFile, binds, res, status, err, hist, hits>>
 
 FinishManifest ==
   /\ Running /\ Top.k = "M" /\ Top.pc > Len(Eager(Top.file))
   /\ stack' = Popped
   /\ status' = IF Len(Popped) = 1 THEN "ok" ELSE "run"
-  /\ UNCHANGED <<scen, cache, loads, thisFile, res, err, hist, hits>>
+  /\ UNCHANGED <<scen, cache, loads, thisFile, binds, res, err, hist, hits>>
+
+(* --- the value of a file that is already in the cache --------------------- *)
+Site(class) == [class |-> class, file |-> Top.file, slot |-> Top.pc, sp |-> Top.sp]
+
+StartEval(n) ==       \* loaded when the options were bound, demanded now for the first time
+  /\ n \in DOMAIN cache /\ cache[n] = "loaded"
+  /\ cache' = [cache EXCEPT ![n] = "eval"]
+  /\ loads' = [loads EXCEPT ![n] = @ + 1]
+  /\ stack' = Append(stack, LFrame(n))
+  /\ UNCHANGED <<scen, thisFile, binds, res, status, err, hits>>
+
+Hit(n) ==             \* any later demand of it, by any route and spelling: the same value
+  /\ n \in DOMAIN cache /\ cache[n] = "done" /\ ~MainIsFn(n)
+  /\ stack' = ReplaceTop(stack, [Top EXCEPT !.cur = n, !.have = TRUE])
+  /\ hits' = hits + 1
+  /\ UNCHANGED <<scen, cache, loads, thisFile, binds, res, status, err>>
+
+Cycle(n) ==           \* the value is needed to compute itself
+  /\ n \in DOMAIN cache /\ cache[n] = "eval" /\ ~MainIsFn(n)
+  /\ status' = "error" /\ err' = Site("cycle")
+  /\ UNCHANGED <<scen, cache, loads, thisFile, binds, res, stack, hits>>
+
+FnValue(n) ==         \* the main file of a run with top-level arguments, reached again
+  /\ n \in DOMAIN cache /\ MainIsFn(n)
+  /\ status' = "outside" /\ err' = Site("mainfn")
+  /\ UNCHANGED <<scen, cache, loads, thisFile, binds, res, stack, hits>>
 
 (* --- one import expression ------------------------------------------------ *)
 Pending == Running /\ Top.k = "W" /\ ~Top.have
-Note(r) == hist' = hist \cup {[dir |-> Top.dir, sp |-> Top.sp, ok |-> r.ok, why |-> r.why,
+Note(r) == hist' = hist \cup {[via |-> "import", dir |-> Top.dir, sp |-> Top.sp, ok |-> r.ok, why |-> r.why,
                                path |-> r.path, node |-> r.node, idx |-> r.idx]}
-Site(class) == [class |-> class, file |-> Top.file, slot |-> Top.pc, sp |-> Top.sp]
 
 ImportFail(r) ==      \* missing file / not a readable file: error at the import site
   /\ ~r.ok
   /\ status' = IF r.why = "above" THEN "outside" ELSE "error"
   /\ err' = Site(r.why)
-  /\ UNCHANGED <<scen, cache, loads, thisFile, res, stack, hits>>
+  /\ UNCHANGED <<scen, cache, loads, thisFile, binds, res, stack, hits>>
 
 DeliverData(d) ==
   /\ stack' = ReplaceTop(Popped, [Below EXCEPT !.pc = @ + 1])
@@ -279,52 +397,58 @@ ImportStr(r) ==       \* the text of the file
   /\ IF Top.left = 0
        THEN DeliverData(ImportStrOf(fs, r.node)) /\ UNCHANGED <<status, err>>
        ELSE status' = "outside" /\ err' = Site("type") /\ UNCHANGED <<stack, res>>
-  /\ UNCHANGED <<scen, cache, loads, thisFile, hits>>
+  /\ UNCHANGED <<scen, cache, loads, thisFile, binds, hits>>
 
 ImportBin(r) ==       \* the bytes of the file
   /\ r.ok /\ Top.kind = "bin"
   /\ IF Top.left = 0
        THEN DeliverData(ImportBinOf(fs, r.node)) /\ UNCHANGED <<status, err>>
        ELSE status' = "outside" /\ err' = Site("type") /\ UNCHANGED <<stack, res>>
-  /\ UNCHANGED <<scen, cache, loads, thisFile, hits>>
+  /\ UNCHANGED <<scen, cache, loads, thisFile, binds, hits>>
 
 ImportNotCode(r) ==   \* evaluating a data file as a program: not decided here
   /\ r.ok /\ Top.kind = "import" /\ ~fs[r.node].code
   /\ status' = "outside" /\ err' = Site("notcode")
-  /\ UNCHANGED <<scen, cache, loads, thisFile, res, stack, hits>>
+  /\ UNCHANGED <<scen, cache, loads, thisFile, binds, res, stack, hits>>
 
-ImportLoad(r) ==      \* first time this file (by identity, not by spelling) is imported
+ImportLoad(r) ==      \* first time this file (by identity, not by spelling) is reached at all
   /\ r.ok /\ Top.kind = "import" /\ fs[r.node].code
   /\ r.node \notin DOMAIN cache
   /\ cache' = cache @@ (r.node :> "eval")
   /\ thisFile' = thisFile @@ (r.node :> r.path)
   /\ loads' = [loads EXCEPT ![r.node] = @ + 1]
   /\ stack' = Append(stack, LFrame(r.node))
-  /\ UNCHANGED <<scen, res, status, err, hits>>
+  /\ UNCHANGED <<scen, binds, res, status, err, hits>>
 
-ImportHit(r) ==       \* any later import of it, by any spelling: the same value
+ImportCached(r) ==    \* it is in the cache, put there by an import or by an option
   /\ r.ok /\ Top.kind = "import" /\ fs[r.node].code
-  /\ r.node \in DOMAIN cache /\ cache[r.node] = "done"
-  /\ stack' = ReplaceTop(stack, [Top EXCEPT !.cur = r.node, !.have = TRUE])
-  /\ hits' = hits + 1
-  /\ UNCHANGED <<scen, cache, loads, thisFile, res, status, err>>
-
-ImportCycle(r) ==     \* the value is needed to compute itself
-  /\ r.ok /\ Top.kind = "import" /\ fs[r.node].code
-  /\ r.node \in DOMAIN cache /\ cache[r.node] = "eval"
-  /\ status' = "error" /\ err' = Site("cycle")
-  /\ UNCHANGED <<scen, cache, loads, thisFile, res, stack, hits>>
+  /\ \/ StartEval(r.node) \/ Hit(r.node) \/ Cycle(r.node) \/ FnValue(r.node)
 
 Import ==             \* one import expression reaches the resolver
-  /\ Pending
+  /\ Pending /\ Top.kind \in ImportKinds
   /\ LET r == Resolve(fs, Top.dir, jpaths, Top.sp) IN
        /\ Note(r)
        /\ \/ ImportFail(r) \/ ImportStr(r) \/ ImportBin(r) \/ ImportNotCode(r)
-          \/ ImportLoad(r) \/ ImportHit(r) \/ ImportCycle(r)
+          \/ ImportLoad(r) \/ ImportCached(r)
+
+(* --- std.extVar("v") / the top-level parameter x --------------------------- *)
+OptsFor(kind, name) == {i \in 1..Len(opts) : opts[i].route = kind /\ opts[i].var = name}
+
+NoVar ==              \* nothing of that name in scope: not decided here
+  /\ status' = "outside" /\ err' = Site("novar")
+  /\ UNCHANGED <<scen, cache, loads, thisFile, binds, res, stack, hits>>
+
+Demand ==             \* the value bound by an option is demanded: no resolution takes place
+  /\ Pending /\ Top.kind \in VarKinds
+  /\ LET is == OptsFor(Top.kind, Top.sp[1]) IN
+       IF Cardinality(is) # 1 \/ (Top.kind = "tla" /\ Top.file # MainNode) THEN NoVar
+       ELSE LET n == binds[CHOOSE i \in is : TRUE] IN
+            \/ StartEval(n) \/ Hit(n) \/ Cycle(n) \/ FnValue(n)
+  /\ UNCHANGED hist
 
 Have == Running /\ Top.k = "W" /\ Top.have
 
-FollowLazy ==         \* `.lazy` on the file value: its hidden import is now demanded
+FollowLazy ==         \* `.lazy` on the file value: its hidden statement is now demanded
   /\ Have /\ Top.left > 0
   /\ IF fs[Top.cur].lazy = <<>>
        THEN status' = "outside" /\ err' = Site("nofield") /\ UNCHANGED stack
@@ -332,50 +456,82 @@ FollowLazy ==         \* `.lazy` on the file value: its hidden import is now dem
             /\ stack' = ReplaceTop(stack, Frame("W", Top.cur, 0, DirOf(thisFile[Top.cur]), st.sp,
                                                  st.kind, Top.left - 1 + st.chain, <<>>, FALSE))
             /\ UNCHANGED <<status, err>>
-  /\ UNCHANGED <<scen, cache, loads, thisFile, res, hist, hits>>
+  /\ UNCHANGED <<scen, cache, loads, thisFile, binds, res, hist, hits>>
 
 OnManifestStack(n) == \E i \in 1..Len(stack) : stack[i].k = "M" /\ stack[i].file = n
 
 DeliverForced ==      \* value wanted by a strict body: only the value, not its contents
   /\ Have /\ Top.left = 0 /\ Below.k = "L"
   /\ stack' = ReplaceTop(Popped, [Below EXCEPT !.pc = @ + 1])
-  /\ UNCHANGED <<scen, cache, loads, thisFile, res, status, err, hist, hits>>
+  /\ UNCHANGED <<scen, cache, loads, thisFile, binds, res, status, err, hist, hits>>
 
 DeliverManifest ==    \* value wanted by the output: manifest it in turn
   /\ Have /\ Top.left = 0 /\ Below.k = "M" /\ ~OnManifestStack(Top.cur)
   /\ res' = [[res EXCEPT ![Below.file] = Append(@, Item("val", Top.cur, <<>>))] EXCEPT ![Top.cur] = <<>>]
   /\ stack' = Append(ReplaceTop(Popped, [Below EXCEPT !.pc = @ + 1]), MFrame(Top.cur))
-  /\ UNCHANGED <<scen, cache, loads, thisFile, status, err, hist, hits>>
+  /\ UNCHANGED <<scen, cache, loads, thisFile, binds, status, err, hist, hits>>
 
 ManifestCycle ==      \* a value that contains itself has no finite manifestation
   /\ Have /\ Top.left = 0 /\ Below.k = "M" /\ OnManifestStack(Top.cur)
   /\ status' = "error" /\ err' = Site("cycle")
-  /\ UNCHANGED <<scen, cache, loads, thisFile, res, stack, hist, hits>>
+  /\ UNCHANGED <<scen, cache, loads, thisFile, binds, res, stack, hist, hits>>
 
-Step == \/ ForceStmt \/ FinishLoad \/ DemandStmt \/ FinishManifest
-        \/ Import
+Step == \/ BindCodeFile \/ StartMain
+        \/ ForceStmt \/ FinishLoad \/ DemandStmt \/ FinishManifest
+        \/ Import \/ Demand
         \/ FollowLazy \/ DeliverForced \/ DeliverManifest \/ ManifestCycle
 
 -----------------------------------------------------------------------------
 (* Invariants                                                                *)
+(* a file is evaluated at most once, however many routes (main program,     *)
+(* import, external variable, top-level argument) and spellings lead to it  *)
 LoadOnce == \A n \in DOMAIN loads : loads[n] <= 1
 
 CacheDomains ==
   /\ DOMAIN cache = DOMAIN thisFile
   /\ DOMAIN cache \subseteq DOMAIN loads
-  /\ \A n \in DOMAIN loads : loads[n] = IF n \in DOMAIN cache THEN 1 ELSE 0
+  /\ \A n \in DOMAIN loads : loads[n] = IF n \in DOMAIN cache /\ cache[n] # "loaded" THEN 1 ELSE 0
 
 EvalOnStack ==
   \A n \in DOMAIN cache :
      (cache[n] = "eval") <=> \E i \in 1..Len(stack) : stack[i].k = "L" /\ stack[i].file = n
 
-Finished == status = "ok" => /\ \A n \in DOMAIN cache : cache[n] = "done"
+(* "loaded, not evaluated" is the state of the main file while the options  *)
+(* are bound and of a code file nobody has demanded yet - of nothing else   *)
+BoundTo(n) == {i \in DOMAIN binds : binds[i] = n}
+LoadedState ==
+  \A n \in DOMAIN cache : (cache[n] = "loaded") =>
+     /\ n = MainNode \/ BoundTo(n) # {}
+     /\ (status \in {"run", "ok"}) => n # MainNode
+
+(* options are bound before the program runs; a failure there ends the run  *)
+(* with nothing evaluated                                                   *)
+BindFirst ==
+  /\ (status = "bind") => (stack = <<TopFrame>> /\ \A n \in DOMAIN loads : loads[n] = 0)
+  /\ (status \in {"run", "ok"}) => DOMAIN binds = 1..Len(opts)
+  /\ \A i \in DOMAIN binds : binds[i] \in DOMAIN cache
+  /\ \A k \in 1..Len(opts) : (BindSeq(opts)[k] \in DOMAIN binds) => \A j \in 1..k : BindSeq(opts)[j] \in DOMAIN binds
+
+(* the main file was loaded by the main path; a code file by the path of    *)
+(* the FIRST option (in binding order) that names it - whatever imports     *)
+(* reach it later, or earlier in evaluation order                           *)
+CodeFilePath ==
+  /\ thisFile[MainNode] = mainPath
+  /\ \A n \in DOMAIN cache : (n # MainNode /\ BoundTo(n) # {}) =>
+        \E k \in 1..Len(opts) : /\ BindSeq(opts)[k] \in BoundTo(n)
+                                /\ thisFile[n] = opts[BindSeq(opts)[k]].path
+                                /\ \A j \in 1..(k - 1) : BindSeq(opts)[j] \notin BoundTo(n)
+
+Finished == status = "ok" => /\ \A n \in DOMAIN cache : cache[n] \in {"done", "loaded"}
                              /\ err = NoErr
 ErrorSite ==
   (status = "error") =>
-     /\ err.file \in DOMAIN cache
-     /\ IF err.slot = 0 THEN fs[err.file].lazy # <<>> /\ fs[err.file].lazy[1].sp = err.sp
-        ELSE err.slot <= Len(Eager(err.file)) /\ (Eager(err.file)[err.slot].sp = err.sp)
+     IF err.file = <<>>      \* the command line
+       THEN /\ err.slot \in 1..Len(opts) /\ opts[err.slot].path = err.sp
+            /\ \A n \in DOMAIN loads : loads[n] = 0
+       ELSE /\ err.file \in DOMAIN cache
+            /\ IF err.slot = 0 THEN fs[err.file].lazy # <<>> /\ fs[err.file].lazy[1].sp = err.sp
+               ELSE err.slot <= Len(Eager(err.file)) /\ (Eager(err.file)[err.slot].sp = err.sp)
 
 StackBound == Len(stack) <= 40
 
@@ -383,14 +539,29 @@ StackBound == Len(stack) <= 40
 CachePaths ==   \* the recorded path of a cached file does lead to that file
   \A n \in DOMAIN cache : LET w == Lookup(fs, thisFile[n]) IN w.ok /\ w.node = n
 
-Functional ==   \* the answer to (importer directory, spelling) never depends on history
-  \A h1, h2 \in hist : (h1.dir = h2.dir /\ h1.sp = h2.sp) => h1 = h2
+BindPaths ==    \* the path of a bound option leads to the file it is bound to
+  \A i \in DOMAIN binds : LET w == Lookup(fs, opts[i].path) IN w.ok /\ w.node = binds[i]
+
+Functional ==   \* the answer to (route, importer directory, spelling) never depends on history
+  \A h1, h2 \in hist : (h1.via = h2.via /\ h1.dir = h2.dir /\ h1.sp = h2.sp) => h1 = h2
 
 SameFileSameNode ==   \* every successful resolution names an existing regular file by its identity
   \A h \in hist : h.ok => LET w == Lookup(fs, h.path) IN w.ok /\ w.node = h.node /\ fs[h.node].t = "file"
 
-Inv == /\ LoadOnce /\ CacheDomains /\ EvalOnStack /\ Finished /\ ErrorSite /\ StackBound
-       /\ (status # "run") => (CachePaths /\ Functional /\ SameFileSameNode)
+CmdNoSearch ==  \* a command-line path is taken as spelled: never an importer's directory, never -J
+  \A h \in hist : (h.via = "cmd" /\ h.ok) => (h.path = h.sp /\ h.idx = 1)
+
+Inv == /\ LoadOnce /\ CacheDomains /\ EvalOnStack /\ LoadedState /\ BindFirst /\ CodeFilePath
+       /\ Finished /\ ErrorSite /\ StackBound
+       /\ (status \notin {"bind", "run"}) => (CachePaths /\ BindPaths /\ Functional /\ SameFileSameNode /\ CmdNoSearch)
+
+(* What is in the cache stays as it is: the path a file was loaded by, the  *)
+(* file an option is bound to and the evaluation count never change again.  *)
+FirstWins ==
+  [][/\ \A n \in DOMAIN thisFile : n \in DOMAIN thisFile' /\ thisFile'[n] = thisFile[n]
+     /\ \A i \in DOMAIN binds : i \in DOMAIN binds' /\ binds'[i] = binds[i]
+     /\ \A n \in DOMAIN loads : loads'[n] >= loads[n]
+     /\ \A n \in DOMAIN cache : cache[n] = "done" => cache'[n] = "done"]_vars
 
 (* Laws of Resolve on a file system f, for importer directories ds, -J      *)
 (* lists js, additional -J directories ls and spellings sps.                 *)
@@ -407,4 +578,7 @@ LawResolve(f, ds, js, ls, sps) ==
          /\ \A l \in ls :                    \* an earlier -J only matters if nothing later has it
               (r.why # "notfound") => Resolve(f, d, <<l>> \o j, sp) = r
          /\ Resolve(f, d, j, <<".">> \o sp).node = r.node              \* "./x" is "x"
+    /\ CmdResolve(f, sp) = Resolve(f, <<>>, <<>>, sp)   \* a command-line path: the working directory, no -J
+    /\ \A j \in js : LET c == CmdResolve(f, sp) IN
+         c.ok => (c.path = sp /\ Resolve(f, <<>>, j, sp) = c)
 =============================================================================
